@@ -31,4 +31,23 @@ func buildCanonicalURI(u *url.URL) (uri string)
   ensures an-empty-path-signs-as-slash: len(u.Opaque) == 0 && escPathOf(ref(u)) == "" ==> uri == "/"
   ghost at loop[1]: gEncoded := uri
   invariant[1] 0 <= i && i <= len(uri) && gEncoded == uri
+
+// ---- C06: the body hash that is signed covers the body that will be forwarded ----
+// when a request is verified, every byte of a present body is read, fed to SHA-256, and the same bytes are put
+// back as the request body; only a request without a body hashes as the empty string. (What SHA-256 / hex
+// compute is uninterpreted: the hook records how many bytes they were given.)
+ghost var gHashedLen int    // bytes handed to SHA-256 by hashBody (-1: none)
+func sha256DegistAndEncodeToHexString(data []byte) (h string)
+  trusted
+  pure
+func (ctx *SigningContext) hashBody(req *http.Request, verify bool) (err error)
+  flag allocates
+  requires ctx != nil && ctx.Signer != nil && ctx.Signer.literal != nil && req != nil && req.Header != nil
+  requires the-body-is-not-a-length-limited-view: req.Body != nil ==> limUnder[ifaceVal(req.Body)] == 0
+  modifies ctx.BodyHash, req.Body, rdRem, gHashedLen, entries(req.Header)
+  ensures verifying-hashes-every-byte-of-a-present-body: verify && !ctx.Signer.excludeBody && old(req.Body != nil) && err == nil ==> gHashedLen == max(old(rdRem[ifaceVal(req.Body)]), 0)
+  ensures and-the-same-bytes-are-put-back-for-forwarding: verify && !ctx.Signer.excludeBody && old(req.Body != nil) && err == nil ==> req.Body != nil && ifaceVal(req.Body) != 0 && rdRem[ifaceVal(req.Body)] == gHashedLen
+  ensures only-a-request-without-body-hashes-as-empty: verify && !ctx.Signer.excludeBody && old(req.Body == nil) ==> err == nil && gHashedLen == -1 && ctx.BodyHash == sha256Empty
+  ghost at entry: gHashedLen := -1
+  ghost at call[1] sha256DegistAndEncodeToHexString: gHashedLen := len(data)
 @*/
